@@ -4,7 +4,7 @@ package c02
 //
 // Input (S-expression):
 //
-//	((wf <calls> (<crit> <mode> <host> <launch>) ...) (<EV> <o0> <o1> ...) ...)
+//	((wf <calls> (<crit> <mode> <host> <launch>) ...) [(offers (<host> ...) ...)] (<EV> <o0> <o1> ...) ...)
 //
 //	calls   number of call roles (testplugin.Noop, trigger before_START_ACTIVITY) in the workflow
 //	crit    1/0   task trait `critical`
@@ -12,6 +12,10 @@ package c02
 //	host    h1 | h2
 //	launch  ok | dies | silent | nohost        what happens at DEPLOY (nohost: the role is constrained to a
 //	                                           machine no agent offers)
+//	offers  (optional) offers that arrive late: the i-th list names the hosts whose offer is MISSING from the i-th offers
+//	        round after NewEnvironment's DEPLOY revives offers (Manager.acquireTasks, DEPLOYMENT_ATTEMPTS_LOOP: one
+//	        round per deployment attempt); rounds beyond the list are complete. `(offers)` = every round complete, but the
+//	        attempts are observed. A third agent h0 that carries no task is always offered, so that every round takes place.
 //	EV      CONFIGURE | START_ACTIVITY | STOP_ACTIVITY | RESET (environment events; the first step, if any, is the
 //	        CONFIGURE that NewEnvironment performs after DEPLOY; the rest are ControlEnvironment requests)
 //	oN      ok | stay | err | undeliv | silent | dies   outcome script of task N for this command
@@ -29,6 +33,11 @@ package c02
 // Observation: one entry per request issued, in order
 //
 //	(new <rpc> <state> <after> (<i> ...))          NewEnvironment  (DEPLOY + CONFIGURE); cmd = tasks the CONFIGURE went to
+//	(new <rpc> <state> <after> (<i> ...) [running-acked] (att (<i> ...) ...) [verdict-lost])   …of a scenario with an
+//	                                               `offers` element: one list per deployment attempt (REVIVE call seen by
+//	                                               the master) with the tasks launched in it (ACCEPT calls up to the next
+//	                                               REVIVE); verdict-lost: the request failed and a goroutine dump of the
+//	                                               core shows acquireTasks still waiting for the verdict of its last round
 //	(ctl <EV> <rpc> <state> <after> (<i> ...))     ControlEnvironment
 //	(ctl <EV> <rpc> <state> <after> (<i> ...) (lost <i> ...))   …during which the executor / agent of the live tasks
 //	                                               <i> … was lost (read off the master's task table)
@@ -45,6 +54,7 @@ package c02
 import (
 	"context"
 	"fmt"
+	"os"
 	"os/exec"
 	"path/filepath"
 	"sort"
@@ -97,6 +107,20 @@ type scenario struct {
 	calls int
 	tasks []taskSpec
 	steps []stepSpec
+	// late offers: hasOffers = the scenario has an `offers` element (the attempts are observed); offers[i] = hosts whose
+	// offer is missing from the i-th round
+	hasOffers bool
+	offers    [][]string
+}
+
+// withholds: some round leaves a host out.
+func (sc *scenario) withholds() bool {
+	for _, r := range sc.offers {
+		if len(r) > 0 {
+			return true
+		}
+	}
+	return false
 }
 
 func parseScenario(in string) (*scenario, error) {
@@ -120,7 +144,27 @@ func parseScenario(in string) (*scenario, error) {
 		}
 		sc.tasks = append(sc.tasks, taskSpec{crit: t.At(0).Bool(), mode: t.At(1).Str(), host: t.At(2).Str(), launch: t.At(3).Str()})
 	}
-	for i := 1; i < n.Len(); i++ {
+	first := 1
+	if n.Len() > 1 && n.At(1).Len() >= 1 && !n.At(1).At(0).IsList && n.At(1).At(0).Str() == "offers" {
+		sc.hasOffers = true
+		first = 2
+		for i := 1; i < n.At(1).Len(); i++ {
+			r := n.At(1).At(i)
+			if !r.IsList {
+				return nil, fmt.Errorf("bad offers round")
+			}
+			var hs []string
+			for j := 0; j < r.Len(); j++ {
+				h := r.At(j)
+				if h.IsList || (h.Str() != "h1" && h.Str() != "h2") {
+					return nil, fmt.Errorf("bad host in offers round")
+				}
+				hs = append(hs, h.Str())
+			}
+			sc.offers = append(sc.offers, hs)
+		}
+	}
+	for i := first; i < n.Len(); i++ {
 		s := n.At(i)
 		if s.Len() != 1+len(sc.tasks) {
 			return nil, fmt.Errorf("bad step")
@@ -133,7 +177,7 @@ func parseScenario(in string) (*scenario, error) {
 				continue
 			}
 			// loss mark
-			if o.Len() != 4 || i == 1 || st.ev == "DIE" {
+			if o.Len() != 4 || i == first || st.ev == "DIE" {
 				return nil, fmt.Errorf("bad loss mark")
 			}
 			k, base, when := o.At(0).Str(), o.At(1).Str(), o.At(2).Str()
@@ -234,7 +278,7 @@ func replies(o string) bool { return o == "ok" || o == "-" || o == "stay" || o =
 
 // lossPlan: what is lost during one request, worked out before the request is sent.
 type lossPlan struct {
-	events     []lossEvent // one FAILURE event per host with a mark
+	events     []lossEvent    // one FAILURE event per host with a mark
 	victims    map[int]string // task index -> task id of every live task on such a host
 	lost       []int          // the same, sorted
 	critLost   bool
@@ -471,16 +515,138 @@ func allLaunchOk(sc *scenario) bool {
 	return true
 }
 
-// runningAckedBy: n tasks were launched since mark, each reported TASK_RUNNING, and the core acknowledged each of those
-// updates before `deadline`.
-func runningAckedBy(w *sim.World, mark, n int, deadline time.Time) bool {
+// attempt: one deployment attempt as the master saw it.
+type attempt struct {
+	idx []int    // indices of the tasks launched in it, sorted
+	ids []string // their task ids
+}
+
+// attemptsSince lists the deployment attempts since trace position mark: one per REVIVE call (Manager.acquireTasks revives
+// offers once per attempt, and nothing else in the core does), with the tasks launched by the ACCEPT calls up to the next
+// REVIVE. It also checks the master against the script: the i-th OFFERS event since mark must carry exactly the hosts that
+// the i-th round does not withhold (anything else is trouble of the harness, not a verdict).
+func attemptsSince(w *sim.World, sc *scenario, mark int) ([]attempt, error) {
+	byID := map[string]int{}
+	for _, t := range w.Tasks() {
+		var i int
+		if _, err := fmt.Sscanf(t.Class, "tc%d", &i); err == nil {
+			byID[t.TaskID] = i
+		}
+	}
+	var atts []attempt
+	round := 0
+	for _, r := range w.Trace()[mark:] {
+		switch {
+		case r.Dir == "call" && r.Type == "REVIVE":
+			atts = append(atts, attempt{})
+		case r.Dir == "call" && r.Type == "ACCEPT" && len(r.TaskIDs) > 0:
+			if len(atts) == 0 {
+				return nil, &sim.InfraError{What: "tasks launched before any REVIVE call"}
+			}
+			a := &atts[len(atts)-1]
+			for _, id := range r.TaskIDs {
+				i, ok := byID[id]
+				if !ok {
+					return nil, &sim.InfraError{What: "launched task " + id + " is not in the master's table"}
+				}
+				a.idx = append(a.idx, i)
+				a.ids = append(a.ids, id)
+			}
+		case r.Dir == "event" && r.Type == "OFFERS":
+			want := map[string]bool{"h0": true, "h1": true, "h2": true}
+			if round < len(sc.offers) {
+				for _, h := range sc.offers[round] {
+					delete(want, h)
+				}
+			}
+			round++
+			got := map[string]bool{}
+			for _, h := range r.Hosts {
+				got[h] = true
+			}
+			same := len(got) == len(want)
+			for h := range want {
+				same = same && got[h]
+			}
+			if !same {
+				return nil, &sim.InfraError{What: fmt.Sprintf("offers round %d carries %v, scripted: all but %v", round, r.Hosts, sc.offers)}
+			}
+		}
+	}
+	for i := range atts {
+		sort.Ints(atts[i].idx)
+	}
+	return atts, nil
+}
+
+// acquireStuck: after a failed NewEnvironment, is Manager.acquireTasks still parked in a channel receive although the
+// offers round it revived for is over (the master has seen the DECLINE / ACCEPT calls that end a round)? Then the verdict
+// of that round never reached it: resourceOffers hands it over with a non-blocking send on an unbuffered channel
+// (`select { case outcomeCh <- …: default: }`) and acquireTasks was not listening yet. The evidence is the goroutine
+// dump the core writes on SIGQUIT (which ends it).
+func acquireStuck(w *sim.World, mark int) (bool, error) {
+	revived, over := false, false
+	for _, r := range w.Trace()[mark:] {
+		if r.Dir != "call" {
+			continue
+		}
+		switch r.Type {
+		case "REVIVE":
+			revived, over = true, false
+		case "DECLINE", "ACCEPT":
+			over = revived
+		}
+	}
+	if !over {
+		return false, nil
+	}
+	exec.Command("pkill", "-QUIT", "-f", "coreWorkingDir="+w.Dir()+"/").Run()
+	if err := sim.Poll("core exit after SIGQUIT", 15*time.Second, func() (bool, error) { return !w.CoreAlive(), nil }); err != nil {
+		return false, err
+	}
+	b, err := os.ReadFile(w.Dir() + "/core.1.stderr")
+	if err != nil {
+		return false, &sim.InfraError{What: "goroutine dump of the core", Err: err}
+	}
+	if !strings.Contains(string(b), "\ngoroutine ") {
+		return false, &sim.InfraError{What: "no goroutine dump in the core's stderr"}
+	}
+	return StuckSignature(string(b)), nil
+}
+
+// StuckSignature: the dump has a goroutine parked in a channel receive whose first frame outside the runtime is
+// Manager.acquireTasks.
+func StuckSignature(dump string) bool {
+	for _, g := range strings.Split(dump, "\n\ngoroutine ") {
+		nl := strings.Index(g, "\n")
+		if nl < 0 || !strings.Contains(g[:nl], "[chan receive") {
+			continue
+		}
+		for _, l := range strings.Split(g[nl+1:], "\n") {
+			if l == "" || strings.HasPrefix(l, "\t") || strings.HasPrefix(l, "runtime.") {
+				continue
+			}
+			if strings.Contains(l, "core/task.(*Manager).acquireTasks(") {
+				return true
+			}
+			break
+		}
+	}
+	return false
+}
+
+// runningAckedBy: n tasks (if `only` is given: n of those) were launched since mark, each reported TASK_RUNNING, and the
+// core acknowledged each of those updates before `deadline`.
+func runningAckedBy(w *sim.World, mark, n int, deadline time.Time, only map[string]bool) bool {
 	running := map[string]bool{}
 	acked := map[string]bool{}
 	for _, r := range w.Trace()[mark:] {
 		switch {
 		case r.Dir == "event" && r.Type == "UPDATE" && r.State == "TASK_RUNNING" && r.Delivered:
 			for _, id := range r.TaskIDs {
-				running[id] = true
+				if only == nil || only[id] {
+					running[id] = true
+				}
 			}
 		case r.Dir == "call" && r.Type == "ACKNOWLEDGE" && r.When.Before(deadline):
 			for _, id := range r.TaskIDs {
@@ -658,6 +824,11 @@ func runScenario(in string) (string, error) {
 	defer w.Stop()
 	w.AddAgent(sim.AgentSpec{Host: "h1", Detector: "TST"})
 	w.AddAgent(sim.AgentSpec{Host: "h2", Detector: "TST"})
+	if sc.hasOffers {
+		// a host that carries no task and is never withheld: every offers round takes place (the master sends no empty
+		// OFFERS event, and the core's attempt waits for one)
+		w.AddAgent(sim.AgentSpec{Host: "h0", Detector: "TST"})
+	}
 	for i, t := range sc.tasks {
 		if err = w.SetTaskClass(fmt.Sprintf("tc%d", i), classYAML(fmt.Sprintf("tc%d", i), t.mode)); err != nil {
 			return "", &sim.InfraError{What: "task class", Err: err}
@@ -691,6 +862,10 @@ func runScenario(in string) (string, error) {
 		}
 	}
 	mark := len(w.Trace())
+	if sc.withholds() {
+		w.Master.WithholdOffers(sc.offers)
+		defer w.Master.WithholdOffers(nil)
+	}
 	ch := make(chan rpcResult, 1)
 	go func() {
 		ctx, cancel := context.WithTimeout(context.Background(), reqCeiling+30*time.Second)
@@ -709,6 +884,9 @@ func runScenario(in string) (string, error) {
 	if len(sc.tasks) == 0 && sc.calls == 0 {
 		expectFast = false
 	}
+	if sc.withholds() {
+		expectFast = false // every attempt that finds a critical task's host missing costs the core's 1 s pause
+	}
 	var res rpcResult
 	var hang bool
 	var hangState string
@@ -725,6 +903,9 @@ func runScenario(in string) (string, error) {
 	}
 	replied := time.Now()
 	dbg("NewEnvironment -> %q err %v", res.state, res.err)
+	if Debug != nil && res.err != nil && os.Getenv("C02_DUMP_NEW_ERR") != "" {
+		dumpCore(w) // probe only: goroutine dump + copy of the world's directory when NewEnvironment failed
+	}
 	if Debug != nil && res.err != nil {
 		for _, l := range strings.Split(w.CoreLog(), "\n") {
 			if strings.Contains(l, "workflow status change") || strings.Contains(l, "for workflow to become active") || strings.Contains(l, "timed out") || strings.Contains(l, "TASK_RUNNING") {
@@ -746,13 +927,52 @@ func runScenario(in string) (string, error) {
 		return "", err
 	}
 	newObs := sx.L(sx.A("new"), sx.A(rpc), sx.A(state), sx.A(after), commandsSince(w, mark, "CONFIGURE"))
-	if rpc == "err" && newObs.At(4).Len() == 0 && (len(sc.tasks) > 0 || sc.calls > 0) && allLaunchOk(sc) {
+	var atts []attempt
+	if sc.hasOffers {
+		w.Master.WithholdOffers(nil)
+		if atts, err = attemptsSince(w, sc, mark); err != nil {
+			return "", err
+		}
+	}
+	// with late offers: the tasks that count are those of the last attempt (the ones the core keeps), and only if that
+	// attempt launched every task
+	launchedAll := !sc.hasOffers || (len(atts) > 0 && len(atts[len(atts)-1].idx) == len(sc.tasks))
+	// with late offers, a failed NewEnvironment: is acquireTasks still waiting for the verdict of its last offers round
+	// (finding deploy_verdict_lost)? Proof by goroutine dump; the core does not survive it, and the run ends here anyway.
+	stuck := false
+	if sc.hasOffers && rpc == "err" && len(sc.tasks) > 0 && len(atts) > 0 {
+		if stuck, err = acquireStuck(w, mark); err != nil {
+			return "", err
+		}
+	}
+	if rpc == "err" && newObs.At(4).Len() == 0 && (len(sc.tasks) > 0 || sc.calls > 0) && allLaunchOk(sc) && launchedAll && !stuck {
 		// DEPLOY failed although every task was scripted to start. Either the harness machine was too slow (inconclusive)
 		// or the core had everything it needed: every TASK_RUNNING update acknowledged long before it gave up.
-		if !runningAckedBy(w, mark, len(sc.tasks), replied.Add(-3*time.Second)) {
+		var only map[string]bool
+		if sc.hasOffers && len(atts) > 0 {
+			only = map[string]bool{}
+			for _, id := range atts[len(atts)-1].ids {
+				only[id] = true
+			}
+		}
+		if !runningAckedBy(w, mark, len(sc.tasks), replied.Add(-3*time.Second), only) {
 			return "", &sim.InfraError{What: "DEPLOY failed and the core had not acknowledged every TASK_RUNNING 3 s before"}
 		}
 		newObs.Add(sx.A("running-acked"))
+	}
+	if sc.hasOffers {
+		a := sx.L(sx.A("att"))
+		for _, at := range atts {
+			l := sx.L()
+			for _, i := range at.idx {
+				l.Add(sx.I(i))
+			}
+			a.Add(l)
+		}
+		newObs.Add(a)
+		if stuck {
+			newObs.Add(sx.A("verdict-lost"))
+		}
 	}
 	obs.Add(newObs)
 	if rpc != "ok" || state != "CONFIGURED" || len(sc.steps) == 0 || hasUndeliv(first.outs) {
